@@ -43,11 +43,32 @@ def _impl_frame(tb):
     return bool(frames) and os.path.abspath(frames[-1].filename).startswith(os.path.abspath(common.REPO))
 
 
+JOB_BUDGET_S = 600  # a single job normally takes well under ten seconds
+
+
+class _OutOfTime(BaseException):
+    pass
+
+
+def _alarm(signum, frame):
+    raise _OutOfTime()
+
+
 def run_job(spec):
+    import signal
+
     kind = spec["kind"]
     res = {"evals": 0, "sig": hashlib.sha1(json.dumps(spec, sort_keys=True).encode()).hexdigest()[:16], "nontrivial": False, "fail": None, "known": [], "sample": None}
+    old_handler = None
+    try:
+        old_handler = signal.signal(signal.SIGALRM, _alarm)
+        signal.alarm(JOB_BUDGET_S)
+    except Exception:
+        old_handler = None
     try:
         JOBS[kind](spec, res)
+    except _OutOfTime:
+        res["fail"] = {"what": "%s: a request (or the walk of its answer) did not finish within %d s: non-termination" % (spec["prop"], JOB_BUDGET_S), "detail": None, "step": res.get("step"), "op": res.get("op")}
     except Failure as f:
         res["fail"] = {"what": f.what, "detail": f.detail, "step": res.get("step"), "op": res.get("op")}
     except AssertionError:
@@ -63,6 +84,13 @@ def run_job(spec):
             }
         else:
             raise
+    finally:
+        try:
+            signal.alarm(0)
+            if old_handler is not None:
+                signal.signal(signal.SIGALRM, old_handler)
+        except Exception:
+            pass
     res["known"] = sorted(set(map(tuple, res["known"])))
     return res
 
@@ -325,9 +353,12 @@ def job_paginate_insert(spec, res):
         acc = []
         k = r.randint(1, 3)
         log = []
+        calls = 0
         while True:
             out = t.paginate_webentity_pages(1, ps, page_count=k, pagination_token=tok, crawled_only=co)
             res["evals"] += 1
+            calls += 1
+            expect(calls < 150, "C09: pagination under insertions does not terminate (150 calls)", {"prefixes": repr(ps), "k": k, "token": tok})
             acc += [x["lru"] for x in out["pages"]]
             if out["done"]:
                 break
@@ -501,6 +532,50 @@ def job_interleave(spec, res):
                             expect(c <= ever.get((a, b_), 0), "C16: network weight exceeds what qualified at any moment", dict(det, edge=[a, b_, c]))
                     for (a, b_), c in always.items():
                         expect(val.get(a, {}).get(b_, 0) >= c, "C16: network misses links that qualified throughout", dict(det, edge=[a, b_, c]))
+            # read-only requests advanced in turns on the final index (no writer
+            # running): each answer must be the one the same request gives when run alone
+            if sch % 3 == 0:
+                def ro(tt):
+                    return [
+                        ("outlinks(1)", tt.get_webentity_outlinks_iter(1, [b"a|"])),
+                        ("inlinks(2)", tt.get_webentity_inlinks_iter(2, [b"b|"])),
+                        ("outlinks(2)", tt.get_webentity_outlinks_iter(2, [b"b|"])),
+                        ("inlinks(1)", tt.get_webentity_inlinks_iter(1, [b"a|"])),
+                        ("pagelinks(1)", tt.get_webentity_pagelinks_iter(1, [b"a|"], include_outbound=True, include_inbound=True)),
+                        ("net", tt.get_webentities_links_iter(include_auto=True)),
+                        ("net-slow", tt.get_webentities_links_slow_iter(include_auto=True)),
+                        ("pages(1)", tt.get_webentity_pages_iter(1, [b"a|"])),
+                        ("most-linked(2)", tt.get_webentity_most_linked_pages_iter(2, [b"b|"], pages_count=3)),
+                    ]
+
+                def norm(v):
+                    return repr(sorted(v, key=repr)) if isinstance(v, (list, set)) else repr(v)
+
+                alone = {}
+                for nm, g in ro(t):
+                    st = None
+                    for st in g:
+                        pass
+                    alone[nm] = norm(st.result)
+                gs = ro(t)
+                r.shuffle(gs)
+                gs = gs[: r.randint(2, 5)]
+                liveq = list(range(len(gs)))
+                answers = {}
+                order2 = []
+                while liveq:
+                    g = r.choice(liveq)
+                    order2.append(gs[g][0])
+                    res["op"] = {"read-only schedule": order2[-60:], "batches": enc(batches)}
+                    try:
+                        st = next(gs[g][1])
+                        if st.done:
+                            answers[gs[g][0]] = norm(st.result)
+                    except StopIteration:
+                        liveq.remove(g)
+                for nm, a in answers.items():
+                    expect(a == alone[nm], "C16: a read-only request advanced in turns with other read-only requests answers differently than alone", dict(det, request=nm, schedule=order2[:200], got=a[:300], alone=alone[nm][:300]))
+                res["evals"] += 1
             t.close()
         res["nontrivial"] = True
         res["sample"] = {"batches": enc(batches), "schedules": nsched}
@@ -733,14 +808,30 @@ def job_variations_creation(spec, res):
     ((w, ps),) = rep.created_webentities.items()
     ref = set(ps)
     K = sorted(ps, key=len)[0]
+    how = ["add_page", "add_pages(crawled)", "add_pages", "index_batch_crawl", "add_links"][seed % 5]
     for v in lru_variations(base):
         t = open_traph(None, RX[name])
-        rep2 = t.add_page(v)
-        t.close()
+        res["op"] = {"base": enc(base), "variation": enc(v), "rule": name, "submitted-through": how}
+        if how == "add_page":
+            rep2 = t.add_page(v)
+        elif how == "add_pages(crawled)":
+            rep2 = t.add_pages([v], crawled=True)
+        elif how == "add_pages":
+            rep2 = t.add_pages([v])
+        elif how == "index_batch_crawl":
+            rep2 = t.index_batch_crawl({v: []})
+        else:
+            rep2 = t.add_links([(v, v)])
         res["evals"] += 1
-        res["op"] = {"base": enc(base), "variation": enc(v), "rule": name}
         got = set(sum(rep2.created_webentities.values(), []))
         expect(got == ref, "C17: the created webentity depends on which variation was seen first", {"base": repr(base), "variation": repr(v), "got": repr(sorted(got)), "exp": repr(sorted(ref))})
+        # ... and the class is attached as a whole: every member resolves to the one id
+        ids = set(rep2.created_webentities)
+        attached = set(l for n_, l in t.lru_trie.webentity_prefix_iter() if n_.webentity() in ids)
+        expect(attached == ref, "C17: the reported class is not the class attached in the index", {"base": repr(base), "variation": repr(v), "through": how, "attached": repr(sorted(attached)), "reported": repr(sorted(ref))})
+        for m_ in sorted(ref):
+            expect(t.retrieve_webentity(m_) in ids, "C17: a member of the created class does not resolve to the created webentity", {"member": repr(m_), "through": how})
+        t.close()
     res["nontrivial"] = True
     res["sample"] = {"base": enc(base), "rule": name, "class": enc(sorted(ref))}
 
@@ -773,6 +864,32 @@ def job_lengths(spec, res):
     res["nontrivial"] = True
     res["distinct"] = hi - lo
     res["sample"] = {"lengths": [lo, hi]}
+
+
+def job_bytevalues(spec, res):
+    """C01/C02 over every non-separator byte value inside a stem (first, middle, last
+    position of the stem; as first stem and as a later one)"""
+    for b in range(spec["lo"], spec["hi"]):
+        if b == 0x7C:
+            continue
+        c = bytes([b])
+        lrus = [b"p:a" + c + b"z|", c + b"|q:" + c + b"|", b"h:x|" + c + c + b"|" + b"y" + c + b"|"]
+        t = open_traph(None)
+        res["op"] = {"byte": b}
+        for l in lrus:
+            t.add_page(l)
+        for l in lrus:
+            n_ = t.lru_trie.lru_node(l)
+            expect(n_ is not None, "C02: a stored LRU is not found by the top-down lookup", {"byte": b, "lru": repr(l)})
+            expect(t.lru_trie.windup_lru(n_.block) == l, "C02: bottom-up reconstruction differs from the submitted LRU", {"byte": b, "lru": repr(l), "got": repr(t.lru_trie.windup_lru(n_.block))})
+        got = sorted(l for _, l in t.pages_iter())
+        expect(got == sorted(lrus), "C01/C02: page enumeration differs from the submitted LRUs", {"byte": b, "got": repr(got)[:300], "expected": repr(sorted(lrus))[:300]})
+        expect(t.count_pages() == len(lrus), "C01: page count", {"byte": b, "count": t.count_pages()})
+        t.close()
+        res["evals"] += 1
+    res["nontrivial"] = True
+    res["distinct"] = spec["hi"] - spec["lo"]
+    res["sample"] = {"bytes": [spec["lo"], spec["hi"]]}
 
 
 def job_empty_metrics(spec, res):
@@ -829,6 +946,7 @@ JOBS = {
     "variations": job_variations,
     "variations_creation": job_variations_creation,
     "lengths": job_lengths,
+    "bytevalues": job_bytevalues,
     "empty_metrics": job_empty_metrics,
     "tokens": job_tokens,
 }
